@@ -118,14 +118,17 @@ def parse_constants(text):
         if want not in cf:
             raise Shape("_process_and_return_finished_state: constant %r not found" % want)
     cv = consts(fns["get_content_disposition_values"])
-    for want in ("collection", "NFKD", "ASCII", "ignore", "[ ;:\"',]+", " ", "-"):
+    for want in ("collection", "NFKD", "ASCII", "ignore", " ", "-"):
         if want not in cv:
             raise Shape("get_content_disposition_values: constant %r not found (have %r)" % (want, cv))
+    rex = [x for x in cv if x.startswith("[") and x.endswith("]+")]
+    if len(rex) != 1:
+        raise Shape("get_content_disposition_values: expected exactly one character-class regex, have %r" % (rex,))
     cd = fstrings(fns["get_content_disposition"])
     for want in ("inline; filename={ascii_fn}.{ext}", ";filename*=UTF-8''{?}.{ext}"):
         if want not in cd:
             raise Shape("get_content_disposition: format %r not found (have %r)" % (want, cd))
-    return {"progress_text": "data fetched. waiting for render process..", "sep_regex": "[ ;:\"',]+"}
+    return {"progress_text": "data fetched. waiting for render process..", "sep_regex": rex[0]}
 
 
 def render(writers, consts):
